@@ -101,17 +101,35 @@ def fam_depnest(n, k):
     return s + "\treturn t\n}\n"
 
 
+TINY = [
+    "if c {\n\t\tfor {\n\t\t}\n\t}\n\tsink(%d)",                                   # bodiless infinite loop in an arm
+    "if c {\n\t\tfor {\n\t\t\tcontinue\n\t\t}\n\t}\n\tsink(%d)",
+    "if c {\n\tL:\n\t\tgoto L\n\t}\n\tsink(%d)",                                     # a block that jumps to itself
+    "if c {\n\t\tselect {}\n\t}\n\tsink(%d)",
+    "for c {\n\t}\n\tsink(%d)",
+    "if c {\n\t\tfor {\n\t\t\tfor {\n\t\t\t}\n\t\t}\n\t} else {\n\t\tfor {\n\t\t}\n\t}\n\tsink(%d)",
+    "if c {\n\t\tpanic(\"x\")\n\t}\n\tdefer sink(0)\n\tsink(%d)",
+    "switch {\n\tcase c:\n\t\tfor {\n\t\t}\n\tdefault:\n\t}\n\tsink(%d)",
+]
+
+
+def fam_tiny(n, k):
+    """Tiny functions with degenerate control flow (blocks that jump to themselves, bodiless infinite loops,
+    empty selects) in an arm of a conditional on a parameter; old and new differ in one constant so the zipper runs."""
+    return "package adv\n\nvar acc int\n\nfunc sink(v int) { acc += v }\n\nfunc F(c bool) {\n\t%s\n}\n" % (TINY[n % len(TINY)] % k)
+
+
 FAMILIES = {"const_adds": fam_const_adds, "identical_ops": fam_identical, "calls_distinct_args": fam_calls, "dag_doubling": fam_dag,
             "nested_loops": fam_nested, "many_blocks": fam_blocks, "phi_cycle": fam_phi, "huge_literals": fam_literal,
             "invariant_chain_acc": lambda n, k: fam_invchain(n, 0), "invariant_chain_step": lambda n, k: fam_invchain(n, 1),
-            "invariant_chain_limit": lambda n, k: fam_invchain(n, 2), "detached_calls": fam_detached, "dependent_nest": fam_depnest}
+            "invariant_chain_limit": lambda n, k: fam_invchain(n, 2), "detached_calls": fam_detached, "dependent_nest": fam_depnest, "tiny_degenerate_cfg": fam_tiny}
 SIZES = {"const_adds": [250, 500, 1000, 2000, 4000, 8000, 16000], "identical_ops": [250, 1000, 4000, 16000],
          "calls_distinct_args": [250, 1000, 4000, 16000], "dag_doubling": [8, 16, 32, 64, 128, 256],
          "nested_loops": [10, 30, 60, 63, 64, 65, 70, 90], "many_blocks": [500, 1500, 2400, 2600, 4000, 8000],
          "phi_cycle": [8, 32, 128, 512], "huge_literals": [64, 1000, 16000, 70000],
          "invariant_chain_acc": [50, 99, 101, 120, 400], "invariant_chain_step": [50, 99, 101, 120, 400],
          "invariant_chain_limit": [50, 99, 101, 120, 400], "detached_calls": [250, 500, 1000, 2000, 4000],
-         "dependent_nest": [4, 8, 12, 14, 16, 18, 20, 22]}
+         "dependent_nest": [4, 8, 12, 14, 16, 18, 20, 22], "tiny_degenerate_cfg": list(range(len(TINY)))}
 
 
 def check(ctx):
@@ -125,7 +143,7 @@ def check(ctx):
     cases = []
     base = os.path.join(ctx.scratch, "adv")
     for fam, gen in FAMILIES.items():
-        sizes = SIZES[fam] if thorough else [s for s in SIZES[fam] if s <= 4000][:5]
+        sizes = SIZES[fam] if thorough or fam == "tiny_degenerate_cfg" else [s for s in SIZES[fam] if s <= 4000][:5]
         if fam == "huge_literals" and not thorough:
             sizes = [64, 1000, 16000]
         for n in sizes:
@@ -138,7 +156,7 @@ def check(ctx):
                 with open(os.path.join(d, side, "a.go"), "w") as fh:
                     fh.write(gen(n, arg))
             cases.append({"family": fam, "size": n, "old": os.path.join(d, "old", "a.go"), "new": os.path.join(d, "new", "a.go"),
-                          "budget_ms": 20000 if fam.startswith("invariant_chain") else 120000})
+                          "budget_ms": 20000 if fam.startswith(("invariant_chain", "tiny_")) else 120000})
     # a file beyond the 10 MiB cap goes through the CLI path (ProcessFile / ComputeDiff reject it)
     plan = os.path.join(ctx.scratch, "plan.json")
     out = os.path.join(ctx.scratch, "work.ndjson")
@@ -156,7 +174,7 @@ def check(ctx):
     ctx.notes["pipeline_runs"] = len(runs)
     ctx.notes["max_total_comparisons"] = max(e["total_cmp"] for e in zips)
     ctx.notes["max_worst_call"] = max((e["worst_cmp"], e["worst_nold"]) for e in zips)
-    ctx.notes["slowest_run_ms"] = max(e["wall_ms"] for e in evs)
+    ctx.notes["slowest_run_ms"] = max(e.get("wall_ms", 0) for e in evs)
     ctx.notes["ir_ratio_by_family"] = {f: round(max([e.get("ir_bytes", 0) / max(1, e["bytes"]) for e in runs if e["family"] == f] or [0]), 1) for f in FAMILIES}
     ctx.notes["oversized_rejections"] = len([e for e in runs if e["oversized"]])
     trace = os.path.join(ctx.scratch, "trace.ndjson")
@@ -173,7 +191,7 @@ def check(ctx):
         case = next(c for c in cases if c["family"] == e["family"] and c["size"] == e["size"])
         replay = ctx.save_replay("%s_%d" % (e["family"], e["size"]), {"event.json": e, "old.go": case["old"], "new.go": case["new"]})
         if e["ev"] == "zip":
-            kind = "work" if e.get("completed") else "crash"
+            kind = "work" if e.get("completed") else ("hang" if "panic" not in e else "crash")
             desc = ("zipper on family %s size %d: worst matchUsers call made %s comparisons for %s old users; total %s for %s uses + %s blocks"
                     % (e["family"], e["size"], e.get("worst_cmp"), e.get("worst_nold"), e.get("total_cmp"), e.get("uses_old"), e.get("blocks_old"))
                     + " (%s instructions in the two functions)" % e.get("instrs_old"))
